@@ -20,6 +20,7 @@ fn groups_for(prop: &str, ctx: &Ctx) -> Vec<Box<dyn Group>> {
         "C14" => vec![Box::new(c14::Rules), Box::new(c14::NonceRewrite::new()), Box::new(c14::CspHeader), Box::new(c14::Chain)],
         "C01" => vec![Box::new(c01::PathOk), Box::new(c01::San), Box::new(c01::Read::new(ctx))],
         "C07" => vec![Box::new(c07::Request1)],
+        "C06" => vec![Box::new(c06::ListHeader), Box::new(c06::Negotiation::new())],
         _ => vec![],
     }
 }
